@@ -121,6 +121,12 @@ def make (c):
         else:
             # from copper down to resistive wire (the loss is then a sizeable part of the balance)
             loads.append (dict (k = 'skin', cond = float (10 ** rng.uniform (2.5, 7.8)), tag = None))
+            if rng.random () < 0.4 and len (spec ['geo']) > 1 and all (g ['k'] == 'w' for g in spec ['geo']):
+                # every object of its own material (resistance wire next to copper)
+                loads.pop ()
+                for i, g in enumerate (spec ['geo']):
+                    g ['tag'] = i + 1
+                    loads.append (dict (k = 'skin', cond = float (10 ** rng.uniform (2.5, 7.8)), tag = i + 1))
     if spec.get ('media') is not None and rng.random () < 0.35:
         # resistive load in a feed location (for ground families the first feed is the grounded base)
         fd = [x for x in spec.get ('feeds') or [] if abs (x ['at'][2]) < 1e-12]
@@ -175,9 +181,29 @@ def check (c):
     P_src = sum ((0.5 * complex (s.voltage) * np.conj (I [s.idx])).real for s in m.sources)
     P_load = 0.0
     for l in m.loads:
+        if l.__class__.__name__ == 'Skin_Effect_Load':
+            continue            # conductor loss is booked below from the conductor, not from what the load object reports
         for p in l.pulses:
             z = complex (l.impedance (m.f, p))
             P_load += 0.5 * abs (I [p.idx]) ** 2 * z.real
+    # conductor loss of lossy wires: every real half segment with the surface resistance of the wire it lies on
+    # (round-wire formula of the README with the conductivity given for that object)
+    from pmv.props import c08 as _c08
+    sig = {}
+    for l in spec.get ('loads') or []:
+        if l ['k'] == 'skin':
+            s_ = l ['cond'] if 'cond' in l else 1.0 / l ['res']
+            for g in m.geo:
+                if l.get ('tag') is None or l ['tag'] == g.tag:
+                    sig [g.tag] = s_
+    if sig:
+        for p in m.pulses:
+            for k in (0, 1):
+                g = p.segs [k].geobj
+                if p.ground [k] or g.tag not in sig:
+                    continue
+                z, ka = _c08.z_int (m.f, g.r_orig, sig [g.tag])
+                P_load += 0.5 * abs (I [p.idx]) ** 2 * (z * p.segs [k].seg_len / 2).real
     if P_src <= 0 or S <= 0:
         return dict (status = 'discard', reason = 'sources absorb net power')
     viol = []
